@@ -256,4 +256,219 @@ theorem compareReduce_eq_loop (c : Cfg) (N : NumOps) (opcode : String) (x : Val)
           | false => rfl
         | _ => rfl
 
+/-! ## numeric strings as operands (`janet_unwrap_s64/u64` → `janet_scan_int64` / `janet_scan_uint64`) -/
+
+theorem unwrap_str (k : Kind) (s : List Nat) :
+    unwrap k (.str s) =
+      (match k with
+       | .s64 => (match scanInt64 s with | some n => .ok n | none => .err .cvts)
+       | .u64 => (match scanU64 s with | some n => .ok n | none => .err .cvtu)) := by
+  cases k <;> rfl
+
+def IsBinaryMacro (mac : String) : Prop :=
+  mac = "OPMETHOD" ∨ mac = "OPMETHODINVERT" ∨ mac = "DIVMETHOD" ∨ mac = "DIVMETHODINVERT" ∨ mac = "DIVMETHOD_SIGNED" ∨
+  mac = "DIVMETHODINVERT_SIGNED"
+
+/-- a string operand in either position of any macro-defined two-argument method is *replaced by the integer it scans to*
+    (the call equals the call with that integer boxed in the receiver's type) -/
+theorem callCfun2_str_ok (c : Cfg) (k : Kind) (f mac name oper : String)
+    (hrow : lookupInstance f = some (mac, kindName k, name, oper)) (hmac : IsBinaryMacro mac)
+    (s : List Nat) (n : Int) (h : unwrap k (.str s) = .ok n) (other : Val) :
+    callCfun2 c k f other (.str s) = callCfun2 c k f other (Val.box k n) ∧
+    callCfun2 c k f (.str s) other = callCfun2 c k f (Val.box k n) other := by
+  unfold callCfun2
+  rw [hrow]
+  simp only [kindName_bne, Bool.false_eq_true, if_false]
+  rcases hmac with rfl | rfl | rfl | rfl | rfl | rfl <;> constructor <;> simp only [h, unwrap_box]
+
+/-- ... and one that does not scan / does not fit the type makes the call fail with the conversion error, whatever the
+    other operand of the receiver's kind is -/
+theorem callCfun2_str_err (c : Cfg) (k : Kind) (f mac name oper : String)
+    (hrow : lookupInstance f = some (mac, kindName k, name, oper)) (hmac : IsBinaryMacro mac)
+    (s : List Nat) (e : Err) (h : unwrap k (.str s) = .err e) (a : Int) :
+    callCfun2 c k f (Val.box k a) (.str s) = .err e ∧ callCfun2 c k f (.str s) (Val.box k a) = .err e := by
+  unfold callCfun2
+  rw [hrow]
+  simp only [kindName_bne, Bool.false_eq_true, if_false]
+  rcases hmac with rfl | rfl | rfl | rfl | rfl | rfl <;> constructor <;> simp only [h, unwrap_box] <;> rfl
+
+/-- the four hand-written s64 methods (`div`, `rdiv`, `mod`, `rmod`): operand fetch order as in the C (generated indices) -/
+theorem hand_divf (c : Cfg) (a0 a1 : Val) : callCfun2 c .s64 "s64_divf" a0 a1 =
+    (unwrapS a0).bind (fun op1 => (unwrapS a1).bind (fun op2 => (divfMethod c.guardDivf op1 op2).bind (fun r => .ok (.s64 r)))) := rfl
+theorem hand_divfi (c : Cfg) (a0 a1 : Val) : callCfun2 c .s64 "s64_divfi" a0 a1 =
+    (unwrapS a0).bind (fun op2 => (unwrapS a1).bind (fun op1 => (divfMethod c.guardDivfi op1 op2).bind (fun r => .ok (.s64 r)))) := rfl
+theorem hand_mod (c : Cfg) (a0 a1 : Val) : callCfun2 c .s64 "s64_mod" a0 a1 =
+    (unwrapS a0).bind (fun op1 => (unwrapS a1).bind (fun op2 => (modMethod c.guardMod op1 op2).bind (fun r => .ok (.s64 r)))) := rfl
+theorem hand_modi (c : Cfg) (a0 a1 : Val) : callCfun2 c .s64 "s64_modi" a0 a1 =
+    (unwrapS a0).bind (fun op2 => (unwrapS a1).bind (fun op1 => (modMethod c.guardModi op1 op2).bind (fun r => .ok (.s64 r)))) := rfl
+
+theorem callCfun2_str_hand (c : Cfg) (f : String) (hf : f = "s64_divf" ∨ f = "s64_divfi" ∨ f = "s64_mod" ∨ f = "s64_modi")
+    (s : List Nat) (other : Val) :
+    (∀ n, unwrapS (.str s) = .ok n →
+      callCfun2 c .s64 f other (.str s) = callCfun2 c .s64 f other (.s64 n) ∧
+      callCfun2 c .s64 f (.str s) other = callCfun2 c .s64 f (.s64 n) other) ∧
+    (∀ e a, unwrapS (.str s) = .err e →
+      callCfun2 c .s64 f (.s64 a) (.str s) = .err e ∧ callCfun2 c .s64 f (.str s) (.s64 a) = .err e) := by
+  have hs : ∀ n : Int, unwrapS (.s64 n) = .ok n := fun _ => rfl
+  rcases hf with rfl | rfl | rfl | rfl
+  all_goals
+    refine ⟨fun n h => ⟨?_, ?_⟩, fun e a h => ⟨?_, ?_⟩⟩ <;>
+      simp only [hand_divf, hand_divfi, hand_mod, hand_modi, h, hs, bind_ok, bind_err]
+
+/-! ### the digit loop of `scan_uint64`: exact value or nothing -/
+
+/-- the number a digit string denotes in `base` (Horner; `_` separators skipped) -/
+def digitsValue (base : Nat) : List Nat → Nat → Nat
+  | [], acc => acc
+  | c :: rest, acc => if c = 95 then digitsValue base rest acc else digitsValue base rest (acc * base + digitVal c)
+
+theorem digitsValue_mono (base : Nat) (hb : 0 < base) (ds : List Nat) (a : Nat) : a ≤ digitsValue base ds a := by
+  induction ds generalizing a with
+  | nil => exact Nat.le_refl _
+  | cons c rest ih =>
+    unfold digitsValue
+    by_cases hc : c = 95
+    · rw [if_pos hc]; exact ih a
+    · rw [if_neg hc]
+      refine Nat.le_trans ?_ (ih _)
+      calc a = a * 1 := (Nat.mul_one a).symm
+        _ ≤ a * base := Nat.mul_le_mul_left a hb
+        _ ≤ a * base + digitVal c := Nat.le_add_right _ _
+
+theorem digitVal_le_255 (c : Nat) : digitVal c ≤ 255 := by
+  unfold digitVal
+  have : ∀ i : Fin 128, digitLookup.getD i.val 255 ≤ 255 := by decide
+  exact this ⟨c % 128, Nat.mod_lt _ (by decide)⟩
+
+/-- accepted ⇒ the accumulated value is exactly the denoted number, and it fits 64 bits -/
+theorem scanDigits_some (base : Nat) (ds : List Nat) (acc : Nat) (seen : Bool) (v : Nat) (hacc : acc ≤ uint64Max)
+    (h : scanDigits base ds acc seen = some v) : v = digitsValue base ds acc ∧ v ≤ uint64Max := by
+  induction ds generalizing acc seen with
+  | nil =>
+    unfold scanDigits at h
+    by_cases hs : seen = true
+    · rw [if_pos hs] at h; injection h with h; subst h; exact ⟨rfl, hacc⟩
+    · rw [if_neg hs] at h; exact absurd h (by simp)
+  | cons c rest ih =>
+    unfold scanDigits at h
+    unfold digitsValue
+    by_cases hc : c = 95
+    · rw [if_pos hc] at h; rw [if_pos hc]
+      by_cases hs : (!seen) = true
+      · rw [if_pos hs] at h; exact absurd h (by simp)
+      · rw [if_neg hs] at h; exact ih acc seen hacc h
+    · rw [if_neg hc] at h; rw [if_neg hc]
+      simp only [] at h
+      by_cases h1 : (decide (c > 127) || decide (digitVal c ≥ base)) = true
+      · rw [if_pos h1] at h; exact absurd h (by simp)
+      · rw [if_neg h1] at h
+        by_cases h2 : acc > (uint64Max - digitVal c) / base
+        · rw [if_pos h2] at h; exact absurd h (by simp)
+        · rw [if_neg h2] at h
+          have hd : digitVal c < base := by
+            simp only [Bool.or_eq_true, decide_eq_true_eq, not_or] at h1; exact Nat.lt_of_not_ge h1.2
+          have hle : acc * base ≤ uint64Max - digitVal c := by
+            have := Nat.div_mul_le_self (uint64Max - digitVal c) base
+            have h3 : acc ≤ (uint64Max - digitVal c) / base := Nat.le_of_not_gt h2
+            exact Nat.le_trans (Nat.mul_le_mul_right base h3) this
+          have hdl : digitVal c ≤ uint64Max := by
+            by_cases hz : digitVal c ≤ uint64Max
+            · exact hz
+            · -- then (uint64Max - digit) / base = 0, so acc = 0 and acc * base + digit = digit < base; but base ≤ 36 is not
+              -- known here: use the table bound instead
+              exact absurd (digitVal_le_255 c) (by unfold uint64Max at hz; omega)
+          have hfit : acc * base + digitVal c ≤ uint64Max := by omega
+          exact ih _ true hfit h
+
+/-- does not fit 64 bits ⇒ rejected -/
+theorem scanDigits_overflow_none (base : Nat) (ds : List Nat) (acc : Nat) (seen : Bool) (hacc : acc ≤ uint64Max)
+    (hov : uint64Max < digitsValue base ds acc) : scanDigits base ds acc seen = none := by
+  induction ds generalizing acc seen with
+  | nil => unfold digitsValue at hov; omega
+  | cons c rest ih =>
+    unfold scanDigits
+    unfold digitsValue at hov
+    by_cases hc : c = 95
+    · rw [if_pos hc]; rw [if_pos hc] at hov
+      by_cases hs : (!seen) = true
+      · rw [if_pos hs]
+      · rw [if_neg hs]; exact ih acc seen hacc hov
+    · rw [if_neg hc]; rw [if_neg hc] at hov
+      simp only []
+      by_cases h1 : (decide (c > 127) || decide (digitVal c ≥ base)) = true
+      · rw [if_pos h1]
+      · rw [if_neg h1]
+        by_cases h2 : acc > (uint64Max - digitVal c) / base
+        · rw [if_pos h2]
+        · rw [if_neg h2]
+          have h3 : acc ≤ (uint64Max - digitVal c) / base := Nat.le_of_not_gt h2
+          have hle : acc * base ≤ uint64Max - digitVal c :=
+            Nat.le_trans (Nat.mul_le_mul_right base h3) (Nat.div_mul_le_self _ base)
+          have hdl := digitVal_le_255 c
+          have hfit : acc * base + digitVal c ≤ uint64Max := by unfold uint64Max at *; omega
+          exact ih _ true hfit hov
+
+theorem scanTail_le (neg : Bool) (pre : Option (Nat × List Nat)) (n : Bool) (v : Nat) (h : scanTail neg pre = some (n, v)) :
+    v ≤ uint64Max := by
+  unfold scanTail at h
+  cases pre with
+  | none => exact absurd h (by simp)
+  | some p =>
+    obtain ⟨base, s2⟩ := p
+    simp only [] at h
+    cases hd : scanDigits base (skipZeros s2 false).1 0 (skipZeros s2 false).2 with
+    | none => rw [hd] at h; exact absurd h (by simp)
+    | some w =>
+      rw [hd] at h
+      simp only [Option.some.injEq, Prod.mk.injEq] at h
+      obtain ⟨_, rfl⟩ := h
+      exact (scanDigits_some _ _ _ _ _ (by decide) hd).2
+
+theorem scanUint64_le (s : List Nat) (neg : Bool) (v : Nat) (h : scanUint64 s = some (neg, v)) : v ≤ uint64Max := by
+  unfold scanUint64 at h
+  split at h
+  · exact absurd h (by simp)
+  · split at h
+    · exact absurd h (by simp)
+    · exact scanTail_le _ _ _ _ h
+
+/-- a scanned string operand is a value of the type it was scanned for -/
+theorem scan_results_in_range (s : List Nat) :
+    (∀ n, scanInt64 s = some n → Kind.s64.inRange n) ∧ (∀ n, scanU64 s = some n → Kind.u64.inRange n) := by
+  constructor
+  · intro n h
+    unfold scanInt64 at h
+    cases hu : scanUint64 s with
+    | none => rw [hu] at h; exact absurd h (by simp)
+    | some p =>
+      obtain ⟨neg, bi⟩ := p
+      rw [hu] at h
+      simp only [] at h
+      have hle := scanUint64_le s neg bi hu
+      unfold uint64Max at hle h
+      simp only [Kind.inRange, int64Min, int64Max]
+      split at h
+      · rename_i h1
+        simp only [Bool.and_eq_true, decide_eq_true_eq] at h1
+        split at h <;> (injection h with h; subst h; simp only [Int.ofNat_eq_natCast, int64Min] at *; omega)
+      · split at h
+        · rename_i h2
+          simp only [Bool.and_eq_true, decide_eq_true_eq] at h2
+          injection h with h; subst h; simp only [Int.ofNat_eq_natCast] at *; omega
+        · exact absurd h (by simp)
+  · intro n h
+    unfold scanU64 at h
+    cases hu : scanUint64 s with
+    | none => rw [hu] at h; exact absurd h (by simp)
+    | some p =>
+      obtain ⟨neg, bi⟩ := p
+      rw [hu] at h
+      simp only [] at h
+      have hle := scanUint64_le s neg bi hu
+      unfold uint64Max at hle
+      simp only [Kind.inRange, two64]
+      split at h
+      · injection h with h; subst h; simp only [Int.ofNat_eq_natCast] at *; omega
+      · exact absurd h (by simp)
+
 end JanetModel.Int64
